@@ -13,12 +13,14 @@ import (
 
 func main() {
 	r := ev.Start("C19", "exploration",
-		"random sequences of 5-60 calls (Init incl. second / by non-genesis accounts, Transfer to others / self / fresh / lock holders with amounts 0, exactly available, available+1, "+
-			"negative, non-numeric, beyond 64 bit; Propose / Vote / Thaw; timer tallies at right and wrong heights; tdpos nominate / vote / revoke incl. stale snapshot heights; direct and "+
-			"forwarded Lock / UnLock / CheckVoteResult / Trigger attempts) over 4 genesis accounts + 2 fresh identities, driven (fast) through the contract manager over one backing state "+
-			"per sequence and (end-to-end) as signed transactions through PreExec / VerifyTx / DoTx / blocks with a replica; after EVERY call the whole governToken bucket is read back and "+
-			"compared with a token-ledger model written from the statement; case = one sequence, distinct by the sequence of (call kind, structural class, accepted/refused); "+
-			"non-trivial = at least one accepted transfer and one accepted lock operation, not abandoned")
+		"random sequences of 5-60 calls (Init incl. second / by non-genesis accounts; Transfer to others / self / fresh / lock holders with amounts 0, exactly available, available+1, "+
+			"negative, non-numeric, beyond 64 bit, also forwarded by a kernel contract and with a foreign 'from' argument; Propose (incl. ill-formed proposal documents) / Vote / Thaw; timer "+
+			"tallies and triggers at right and wrong heights; tdpos nominate (own and co-signed candidate) / vote / revokeVote / revokeNominate incl. stale snapshot heights; Lock / UnLock / "+
+			"CheckVoteResult / Trigger attempts as user transactions and through four forwarding kernel contracts with look-alike names; raw Lock / UnLock with all amounts through a forwarder "+
+			"registered under the TDPoS name $xpos) over 4 genesis accounts + 2 fresh identities + fresh names, driven (fast) through the contract manager over one backing state per sequence "+
+			"and (end-to-end) as signed transactions through PreExec / VerifyTx / DoTx / packed blocks with real timer transactions and a replica that re-executes every block; after EVERY call "+
+			"the whole governToken bucket is read back and compared with a token-ledger model written from the statement; case = one sequence, distinct by the sequence of (call kind, "+
+			"structural class, accepted/refused); non-trivial = at least one accepted transfer and one accepted lock operation, not abandoned at a violation")
 	defer sn.CleanupScratch()
 	initAddrs()
 
@@ -27,6 +29,9 @@ func main() {
 	workers := runtime.GOMAXPROCS(0)
 	if workers > 16 {
 		workers = 16
+	}
+	if os.Getenv("C19_DIRECTED") != "" {
+		directed()
 	}
 	if r.Replay != "" {
 		replay(r)
@@ -96,7 +101,8 @@ func main() {
 	noteMu.Unlock()
 	r.Assume("fast mode: a refused call is discarded by the driver exactly like a client discards a failed pre-execution; real rollback of refused transactions is exercised by the end-to-end mode only")
 	r.Assume("the $tdpos kernel contract is a real tdpos consensus instance created on the node's contract manager; its view of the ledger is the node's ledger + state (end-to-end) or per-height copies of the backing state (fast)")
-	r.Assume("$xpos is accepted by Lock / UnLock as a caller besides $proposal and $tdpos: it is the name the same TDPoS kernel contract registers under when chained-BFT is enabled")
+	r.Assume("$xpos is accepted by Lock / UnLock as a caller besides $proposal and $tdpos: it is the name the same TDPoS kernel contract registers under when chained-BFT is enabled; the harness registers a forwarding contract under that (otherwise unused) name to issue lock / unlock operations with arbitrary amounts, as the statement quantifies them")
+	r.Assume("a due unlock that the timer does not carry out (tally.unlock_not_done.*) is counted, not flagged: the statement forbids lock changes without a lock / unlock operation, it does not demand that an unlock succeeds")
 	r.Assume("blocks whose timer transaction would depend on pool transactions of the same block (open C13 finding) are avoided by construction in the end-to-end mode")
 	r.Finish()
 }
